@@ -63,6 +63,22 @@ def cases(tier):
                 for iset in [[W[0], W[-1]], [W[1], W[0]]]:
                     yield {'d': d, 'm': m, 'ws': [list(w) for w in ws], 'iset': iset, 'var': 'hosvd', 'thr': 1e-12, 'mr': 'inf', 'fl': [0, 0], 'irep': 'mask'}
                     yield {'d': d, 'm': m, 'ws': [list(w) for w in ws], 'iset': iset, 'var': 'hocur', 'irep': 'mask'}
+                # index sets that are not ascending windows: periodic wrap-around lag, time-symmetrised pairs (x u y, y u x),
+                # unsorted x with y = x + 1 — the pairing x_j -> y_j is what defines the operator
+                L = min(m - 1, 4)
+                wrap = [(list(range(m - L, m)) + [0], [(t_ + 1) % m for t_ in list(range(m - L, m)) + [0]])]
+                sym = [(list(range(0, L)) + list(range(1, L + 1)), list(range(1, L + 1)) + list(range(0, L)))]
+                perm = [([2, 0, 3, 1][:L], [3, 1, 4, 2][:L])] if m >= 6 else []
+                for pr in wrap + sym + perm:
+                    for var in ('hosvd', 'hocur'):
+                        cs = {'d': d, 'm': m, 'ws': [list(w) for w in ws], 'iset': [[list(pr[0]), list(pr[1])]], 'var': var}
+                        if var == 'hosvd':
+                            cs.update({'thr': 1e-12, 'mr': 'inf', 'fl': [0, 0]})
+                        yield cs
+                # progress output switched on (a flag that must not change results)
+                for iset in [[W[0]], [W[-1]], [W[0], W[-1]]]:
+                    yield {'d': d, 'm': m, 'ws': [list(w) for w in ws], 'iset': iset, 'var': 'hocur', 'progress': True}
+                    yield {'d': d, 'm': m, 'ws': [list(w) for w in ws], 'iset': iset, 'var': 'hosvd', 'thr': 1e-12, 'mr': 'inf', 'fl': [0, 0], 'progress': True}
                 if d == 1:
                     for iset in [[w] for w in W]:
                         for ws_i in (ws, [(3, 2), (1, 2)], [(4, 3), (3, 2)]):      # also bases whose FIRST mode is non-integer valued
@@ -107,10 +123,11 @@ def run_case(case, seed):
                 mr = np.inf if case['mr'] == 'inf' else case['mr']
                 if case.get('mrt'):
                     mr = {'np64': np.int64, 'np32': np.int32}[case['mrt']](mr)
-                return tedmd.amuset_hosvd(x, xa, ya, basis, threshold=case['thr'], max_rank=mr, ef_tf=bool(case['fl'][0]), st_tf=bool(case['fl'][1]))
-            return tedmd.amuset_hocur(x, xa, ya, basis, max_rank=HOC['ranks'], multiplier=3)
+                return tedmd.amuset_hosvd(x, xa, ya, basis, threshold=case['thr'], max_rank=mr, ef_tf=bool(case['fl'][0]), st_tf=bool(case['fl'][1]), **PROG)
+            return tedmd.amuset_hocur(x, xa, ya, basis, max_rank=HOC['ranks'], multiplier=3, **PROG)
 
     HOC = {'ranks': 1000}
+    PROG = {'progress': True} if case.get('progress') else {}
     if var == 'hocur' and len(iset) == 1:
         HOC['ranks'] = [1] + [1000] * len(basis) + [1]          # per-bond list (an input: must come back unchanged)
     ranks_given = list(HOC['ranks']) if isinstance(HOC['ranks'], list) else HOC['ranks']
